@@ -107,7 +107,7 @@ CLAIMED = {
    tech="Lean 4 proof (induction over request list, stable-sort head lemma) + differential correspondence", ref="§6 C12"),
  "C17": dict(
    text="Theorems: C17_embed_decode (decoding the embedded JS literal gives back exactly the units, for ALL unit lists and ALL Unicode strings), C17_embed_no_lt / C17_embed_script_safe (no `<`, hence no </script or <!--), "
-        "C17_register_exact / _order_insensitive / _untouched (registered set = units touched by the render history). Correspondence: the real RegisterCtx::{provide_context, register, to_array} with runtime strings fed through a StringArray handle, 1-3 concurrent renders, and "real renders" (the generated accessors t_string!/t_display!/td_string!/t! inside the generated <I18nContextProvider>, several renders per process); output judged by the Lean decoder and serde_json.",
+        "C17_register_exact / _order_insensitive / _untouched (registered set = units touched by the render history). Correspondence: the real RegisterCtx::{provide_context, register, to_array} with runtime strings fed through a StringArray handle, 1-3 concurrent renders, and real renders (the generated accessors t_string!/t_display!/td_string!/t! inside the generated <I18nContextProvider>, several renders per process); output judged by the Lean decoder and serde_json.",
    note=BASE + "The browser's JS parser ~ the JS-literal decoder of the spec; hydrate-side wasm code, streaming / islands rendering not executed. Locale names / unit ids are pushed unescaped (identifiers): explicit hypothesis UnitNamesOk.", tech="Lean 4 proof (encoder/decoder round trip by induction) + differential correspondence", ref="§6 C17, notes/C17.md"),
  "C18": dict(
    text="Theorems: C18_formatter_args (from_name_and_args = the documented option table: first recognised occurrence else default), C18_unknown_option_ignored, C18_whitespace_insensitive, C18_unknown_name, C18_t_format_agrees (file syntax and t*_format! agree), with C06_populate_subst for formatted variables reached through `$t(..)` (checked on every clause), "
